@@ -424,7 +424,31 @@ def covered_wide(a, msg):
     if not W.ctx_expected(a["ctx"], _ns_agree_wide):
         return "out-of-claim: text var with child elements / token-list or wrapped var inside a sequence group (excluded universes)"
     r = W.regions(a["desc"], a["value"], a["ctx"])
+    if r and all(x == "C01-attributes-value-prefix-rewritten" for x in r) and not _prefix_bound(a):
+        return None  # `prefix:rest` whose prefix is not bound where the attribute stands is left alone: no excuse
     return r[0] if r else None
+
+
+def _prefix_bound(a):
+    """exactly when `ParserUtils.parse_any_attribute` rewrites a value of the shape prefix:rest: the
+    prefix is bound where the attribute stands, in the document a real writer produces (the Lean
+    hypothesis `anyAttrValOK` excludes the shape wholesale: the abstract writer of the model binds every
+    prefix of `prefixMap (collectUris evs)` at the root, the real writers where a name first needs it)"""
+    from lxml import etree
+
+    u = uni_of(a)
+    obj = u.from_val(a["value"])
+    for writer in ("native", "lxml"):
+        try:
+            xml = G.real_serialize(u, obj, writer=writer)
+        except Exception:  # noqa: BLE001
+            return True
+        for el in etree.fromstring(xml.encode()).iter():
+            for v in el.attrib.values():
+                left, sep, right = v.partition(":")
+                if sep and left and right and not right.startswith("//") and (left == "xml" or left in el.nsmap):
+                    return True
+    return False
 
 
 # ------------------------------------------------------------------ shared state: one context for many calls
